@@ -20,6 +20,9 @@ def build_node(ctx, clock, role, lvl, name="node"):
     spi, ce = FakeSpiDev(radio), Pin(radio)
     if role == "master":
         node = RF24Mesh(spi, 0, ce, 0)
+        if ctx.symbolic:  # the public lease table attribute: an association list instead of hashing symbolic ids
+            from vsym.symcoll import SymDict
+            node.dhcp_dict = SymDict()
         return radio, node, 0
     addr = sym_addr(ctx, name + "_addr", lvl)
     if role in ("routing", "net"):
